@@ -127,6 +127,21 @@ def families(tier):  # noqa: C901
                                  f'((_ extract {i} {j}) '
                                  f'((_ zero_extend {k}) {o}))))\n')
                 yield 'bv_extract_zext', decl('x', w) + body
+    # --- extract over zero_extend of a concat with an operand whose width
+    # ddSMT does not know (bvlshr is not in its table) but whose value is
+    # defined
+    for w in [1, 2]:
+        for k in [1, 3]:
+            tot = 2 * w + k
+            body = ''
+            for o in ('(concat (bvlshr x y) x)', '(concat x (bvlshr x y))'):
+                for i in range(tot):
+                    for j in range(i + 1):
+                        body += (f'(assert (= ((_ extract {i} {j}) '
+                                 f'((_ zero_extend {k}) {o})) '
+                                 f'((_ extract {i} {j}) '
+                                 f'((_ zero_extend {k}) {o}))))\n')
+            yield 'bv_extract_zext_concat', decl('x', w) + decl('y', w) + body
     # --- merging extensions (chains of 2 and 3, all kinds)
     for w in [1, 2, 3]:
         body = ''
